@@ -265,6 +265,8 @@ const optionsVar = "github.com/alibaba/RedisShake/redis-shake/configure.Options"
 var (
 	mutatedGlobal = map[*types.Var]bool{}
 	globalPkgs    = map[*types.Package]bool{}
+	sharedObj     = map[*types.Var]bool{}        // pointer/interface globals whose object is used through methods
+	sharedFuncs   = map[*types.Func]*types.Var{} // functions that receive mutated package-level memory as an argument
 )
 
 func isPkgLevel(v *types.Var) bool {
@@ -314,6 +316,22 @@ func markMutated(v *types.Var) {
 	mutatedGlobal[v] = true
 }
 
+// markSharedObj: v is a package-level pointer or interface whose object has methods called on it. Objects of types from
+// outside the tool's module (prometheus vectors, regexps) are taken to synchronise themselves and are left alone;
+// interfaces (unknown implementation) and pointers to the tool's own types count.
+func markSharedObj(v *types.Var) {
+	if v == nil || !globalPkgs[v.Pkg()] || v.Pkg().Path()+"."+v.Name() == optionsVar {
+		return
+	}
+	t := v.Type()
+	if p, ok := t.Underlying().(*types.Pointer); ok {
+		if n, ok := p.Elem().(*types.Named); ok && n.Obj().Pkg() != nil && !globalPkgs[n.Obj().Pkg()] {
+			return
+		}
+	}
+	sharedObj[v] = true
+}
+
 // analyseGlobals finds the package-level variables that ordinary code (anything but func init) writes.
 func analyseGlobals(pkgs []*packages.Package, skip func(string) bool) {
 	for _, p := range pkgs {
@@ -333,6 +351,19 @@ func analyseGlobals(pkgs []*packages.Package, skip func(string) bool) {
 			scan := func(body ast.Node) {
 				ast.Inspect(body, func(n ast.Node) bool {
 					switch x := n.(type) {
+					case *ast.Ident:
+						// any use of a package-level pointer (to one of the tool's own types) or interface (other than
+						// error): the object behind it is reachable from every goroutine, also through local aliases
+						if v, ok := info.Uses[x].(*types.Var); ok && isPkgLevel(v) {
+							switch u := v.Type().Underlying().(type) {
+							case *types.Pointer:
+								markSharedObj(v)
+							case *types.Interface:
+								if !types.Identical(v.Type(), types.Universe.Lookup("error").Type()) && u.NumMethods() > 0 {
+									markSharedObj(v)
+								}
+							}
+						}
 					case *ast.AssignStmt:
 						if x.Tok != token.DEFINE {
 							for _, l := range x.Lhs {
@@ -355,13 +386,26 @@ func analyseGlobals(pkgs []*packages.Package, skip func(string) bool) {
 							markMutated(rootVar(info, x.X))
 						}
 					case *ast.CallExpr:
+						// append(g[:0], ...) and copy(g, ...) write into the memory a package-level slice points at
+						if id, ok := x.Fun.(*ast.Ident); ok && len(x.Args) > 0 {
+							if _, isB := info.Uses[id].(*types.Builtin); isB && (id.Name == "append" || id.Name == "copy") {
+								markMutated(rootVar(info, x.Args[0]))
+							}
+						}
 						if sel, ok := x.Fun.(*ast.SelectorExpr); ok {
 							if s := info.Selections[sel]; s != nil && s.Kind() == types.MethodVal {
 								if fn, ok := s.Obj().(*types.Func); ok {
 									if sig, ok := fn.Type().(*types.Signature); ok && sig.Recv() != nil {
-										if _, ptrRecv := sig.Recv().Type().(*types.Pointer); ptrRecv {
-											if tv, ok := info.Types[sel.X]; ok {
-												if _, isPtr := tv.Type.Underlying().(*types.Pointer); !isPtr {
+										if tv, ok := info.Types[sel.X]; ok {
+											_, ptrRecv := sig.Recv().Type().(*types.Pointer)
+											switch tv.Type.Underlying().(type) {
+											case *types.Pointer, *types.Interface:
+												// a method of the object a package-level pointer or interface refers to: a shared
+												// object (scheduling points, but no re-initialisation: its initialiser may have
+												// side effects such as registering a metric)
+												markSharedObj(rootVar(info, sel.X))
+											default:
+												if ptrRecv {
 													markMutated(rootVar(info, sel.X)) // implicit &x
 												}
 											}
@@ -401,6 +445,52 @@ func analyseGlobals(pkgs []*packages.Package, skip func(string) bool) {
 		}
 	}
 	stats["mutated_globals"] = len(mutatedGlobal)
+	stats["shared_object_globals"] = len(sharedObj)
+	// second pass: a function of the tool that is handed mutated package-level memory as an argument (a slice, map or
+	// pointer rooted in such a variable) works on shared memory as well
+	for _, p := range pkgs {
+		if skip(p.PkgPath) || len(p.Errors) > 0 {
+			continue
+		}
+		info := p.TypesInfo
+		for i, file := range p.Syntax {
+			if strings.HasSuffix(p.CompiledGoFiles[i], "_test.go") {
+				continue
+			}
+			ast.Inspect(file, func(n ast.Node) bool {
+				call, ok := n.(*ast.CallExpr)
+				if !ok {
+					return true
+				}
+				var fn *types.Func
+				switch f := call.Fun.(type) {
+				case *ast.Ident:
+					fn, _ = info.Uses[f].(*types.Func)
+				case *ast.SelectorExpr:
+					fn, _ = info.Uses[f.Sel].(*types.Func)
+				}
+				if fn == nil || fn.Pkg() == nil || !globalPkgs[fn.Pkg()] {
+					return true
+				}
+				for _, a := range call.Args {
+					tv, ok := info.Types[a]
+					if !ok {
+						continue
+					}
+					switch tv.Type.Underlying().(type) {
+					case *types.Slice, *types.Map, *types.Pointer:
+					default:
+						continue
+					}
+					if v := refsMutatedGlobal(info, a); v != nil {
+						sharedFuncs[fn] = v
+					}
+				}
+				return true
+			})
+		}
+	}
+	stats["shared_memory_callees"] = len(sharedFuncs)
 }
 
 // refsMutatedGlobal reports the first mutated package-level variable referenced inside n (function literals excluded:
@@ -418,7 +508,7 @@ func refsMutatedGlobal(info *types.Info, n ast.Node) *types.Var {
 		case *ast.FuncLit:
 			return false
 		case *ast.Ident:
-			if v, ok := info.Uses[x].(*types.Var); ok && mutatedGlobal[v] {
+			if v, ok := info.Uses[x].(*types.Var); ok && (mutatedGlobal[v] || sharedObj[v]) {
 				found = v
 			}
 		}
@@ -583,6 +673,11 @@ func (f *fileCtx) sharedStateFunc(stack []ast.Node) *types.Var {
 				return nil
 			}
 			body = x.Body
+			if fn, ok := f.pkg.TypesInfo.Defs[x.Name].(*types.Func); ok {
+				if v := sharedFuncs[fn]; v != nil && x.Body != nil {
+					return v
+				}
+			}
 		default:
 			continue
 		}
